@@ -398,6 +398,14 @@ pub fn run_batch<P: Prop>(o: &Opts) -> i32 {
     let total = n_seeded + n_sys;
     println!("[{}] engine={} tier={} seed={} runs={} (seeded {} + systematic {}) jobs={}", P::ID, P::ENGINE, o.tier.name(), o.seed, total, n_seeded, n_sys, o.jobs);
 
+    // which runs are in flight, on disk: if the process dies (stack overflow, allocation failure, abort in a
+    // dependency) the front end reads this and replays those runs one by one in processes of their own
+    std::fs::create_dir_all(&o.out_dir).ok();
+    let inflight_path = format!("{}/inflight.{}.{}", o.out_dir, P::ID, P::ENGINE);
+    let inflight: Option<Arc<std::fs::File>> = if o.hashes_only { None } else { std::fs::OpenOptions::new().create(true).write(true).truncate(true).open(&inflight_path).ok().map(Arc::new) };
+    if let Some(f) = &inflight {
+        let _ = f.set_len(8 * o.jobs as u64);
+    }
     let next = Arc::new(AtomicU64::new(0));
     let stop = Arc::new(AtomicBool::new(false));
     let systematic = Arc::new(systematic);
@@ -417,6 +425,7 @@ pub fn run_batch<P: Prop>(o: &Opts) -> i32 {
         let results = results.clone();
         let samples = samples.clone();
         let systematic = systematic.clone();
+        let inflight = inflight.clone();
         let h = std::thread::Builder::new()
             .name(format!("sim-{}", w))
             .stack_size(64 << 20)
@@ -463,7 +472,15 @@ pub fn run_batch<P: Prop>(o: &Opts) -> i32 {
                     // configuration dimension: one run in four has logging switched on (log arguments are evaluated)
                     crate::logsim::set(P::logging_allowed() && i % 4 == 1);
                     let _ = crate::logsim::take_events();
+                    if let Some(f) = &inflight {
+                        use std::os::unix::fs::FileExt;
+                        let _ = f.write_at(&(i + 1).to_le_bytes(), 8 * w as u64);
+                    }
                     let out = run_caught::<P>(&scn, &mut st);
+                    if let Some(f) = &inflight {
+                        use std::os::unix::fs::FileExt;
+                        let _ = f.write_at(&0u64.to_le_bytes(), 8 * w as u64);
+                    }
                     if crate::logsim::is_on() {
                         st.fault_n("logging_enabled_log_events_formatted", crate::logsim::take_events());
                     }
@@ -773,6 +790,43 @@ fn verify_replay_fresh(path: &str, v: &Violation) -> bool {
             o.status.code() == Some(1) && s.contains(&format!("REPRODUCED class={} key={}", v.class, v.key))
         }
         Err(_) => false,
+    }
+}
+
+/// `vsim emit ID --index I`: the replay file of run I of the batch (same seed, tier), without running it.
+pub fn emit<P: Prop>(o: &Opts, index: u64) -> i32 {
+    let systematic: Vec<P::Scn> = P::systematic(o.tier);
+    let n_sys = systematic.len() as u64;
+    let seed = o.seed;
+    let scn = if index < n_sys {
+        systematic[index as usize].clone()
+    } else {
+        let mut r = Rng::new(rng::run_seed(seed, P::ID, index - n_sys));
+        P::generate(&mut r, o.tier, index - n_sys)
+    };
+    std::fs::create_dir_all(&o.out_dir).ok();
+    let path = format!("{}/{}-abort-{:016x}.json", o.out_dir, P::ID, rng::run_seed(seed, P::ID, index));
+    let rf = ReplayFile {
+        property: P::ID.to_string(),
+        engine: P::ENGINE.to_string(),
+        class: "abort".to_string(),
+        key: "process-died".to_string(),
+        detail: format!("run {} of the batch (seed {}) was in flight when the process died; replaying this file in a process of its own decides whether it is the one", index, seed),
+        seed,
+        run_index: index as i64,
+        minimised: false,
+        scenario: serde_json::to_value(&scn).unwrap_or(Value::Null),
+        prelude: vec![],
+    };
+    match std::fs::write(&path, serde_json::to_string_pretty(&rf).unwrap_or_default()) {
+        Ok(()) => {
+            println!("{}", path);
+            0
+        }
+        Err(e) => {
+            eprintln!("harness: cannot write {}: {}", path, e);
+            2
+        }
     }
 }
 
